@@ -31,9 +31,9 @@ func VGenAkaValue(t EapAkaPrimeAttrType, tier int) []byte {
 			return vr.Bytes(3)
 		}
 		if tier == 0 {
-			return vr.Bytes(vr.IntOf(0, 1, 4, 6, 250))
+			return vr.Bytes(vr.IntOf(0, 1, 4, 6, 250, 1000))
 		}
-		return vr.Bytes(vr.IntOf(0, 1, 2, 3, 4, 5, 6, 7, 8, 31, 32, 33, 249, 250, 251, 252, 300))
+		return vr.Bytes(vr.IntOf(0, 1, 2, 3, 4, 5, 6, 7, 8, 31, 32, 33, 249, 250, 251, 252, 300, 505, 1000, 1016))
 	case AT_CHECKCODE:
 		if tier < 0 {
 			return vr.Bytes(20)
